@@ -151,13 +151,18 @@ func c05DataVariants(data []byte, r *vk.Rand, randomCount int) []c05Variant {
 					if err != nil {
 						return &m
 					}
-					nv, ok := adv.ApplyTyped(adv.Get(rt, site), name, nil, r)
-					if !ok {
-						return &m
-					}
-					if b, err := adv.Encode(adv.With(rt, site, nv, false)); err == nil {
-						m.Data = b
-					}
+					// the site was found in the recorded transcript; this session's message has other random bytes and
+					// may not contain it (e.g. a random byte string that happened to parse as a nested document)
+					func() {
+						defer func() { _ = recover() }()
+						nv, ok := adv.ApplyTyped(adv.Get(rt, site), name, nil, r)
+						if !ok {
+							return
+						}
+						if b, err := adv.Encode(adv.With(rt, site, nv, false)); err == nil {
+							m.Data = b
+						}
+					}()
 					return &m
 				}})
 			}
@@ -254,6 +259,11 @@ func c05Run(t *vk.T, c *camp, victim party.ID, tg c05Target, v c05Variant, timin
 	t.Distinct("%s|%s|%s|%s|%s|%s", c.name, tg, v.class, v.path, v.mut, timing)
 	t.Obs("class|"+v.class, 1)
 	key := keyPrefix + "|" + tg.String() + "|" + v.class
+	if pnk && fr == "unknown" {
+		// no library frame on the panicking stack: the harness itself failed, nothing was decided
+		t.Inconclusive("%s: harness panic: %s", desc, truncStr(txt, 200))
+		return true
+	}
 	if pnk {
 		t.Violation(c.name+"|panic|"+fr, "%s: a participant panicked in %s: %s", desc, fr, truncStr(txt, 200))
 		return true
